@@ -190,8 +190,34 @@ pub fn run(tier: &str, seed: u64, shards: usize, outdir: &str) {
             }
         }
     }
+    // exhaustive again over the characters whose stored form differs from what was typed: combining
+    // marks and prepended characters swallowed by their cluster (U+0345 counts as upper case, U+0600
+    // swallows what follows), and letters whose case folding changes whether they would be normalised
+    let edge: Vec<char> = "α\u{345}\u{600}Aaẞ\u{23a}\u{212b}\u{301}\\ $".chars().collect();
+    let ke = edge.len() as u64;
+    for len in 1..=3u32 {
+        for code in 0..ke.pow(len) {
+            let mut x = code;
+            let mut t = String::new();
+            for _ in 0..len {
+                t.push(edge[(x % ke) as usize]);
+                x /= ke;
+            }
+            for (si, (c, n)) in settings.iter().enumerate() {
+                id += 1;
+                emit(record(id, "parse", "F", c, n, &t, &[]), id);
+                let kd = kinds[(code as usize) % 5];
+                id += 1;
+                match (code as usize + si) % 3 {
+                    0 => emit(record(id, "new", kd, c, n, &t, &[]), id),
+                    1 => emit(record(id, "atom_new", kd, c, n, &t, &[]), id),
+                    _ => emit(record(id, "atom_new_raw", kd, c, n, &t, &[]), id),
+                }
+            }
+        }
+    }
     // random longer texts over a wider alphabet, and reparse histories
-    let wide: Vec<char> = "!^'$\\ \t\n\u{b}\u{a0}\u{3000}\u{2003}abcXYZ09-_/äÄßςσΣほаБ½ǅ".chars().collect();
+    let wide: Vec<char> = "!^'$\\ \t\n\u{b}\u{a0}\u{3000}\u{2003}abcXYZ09-_/äÄßςσΣほаБ½ǅα\u{345}\u{600}\u{301}ẞ\u{23a}\u{212b}".chars().collect();
     let nrand = if thorough { 200_000 } else { 20_000 };
     let gen_text = |rng: &mut StdRng, maxlen: usize| -> String {
         let n = rng.gen_range(0..=maxlen);
